@@ -34,6 +34,27 @@ func setNoOptions(xs []string) string {
 	return setOf(out)
 }
 
+// litSegs / litChars: the primary ranking keys of CurlyRouter (static segments) and RouterJSR311 (literal characters).
+func litSegs(t rt.Tmpl) int {
+	n := 0
+	for _, sg := range t {
+		if sg.Kind == rt.Lit {
+			n++
+		}
+	}
+	return n
+}
+
+func litChars(t rt.Tmpl) int {
+	n := 0
+	for _, sg := range t {
+		if sg.Kind == rt.Lit {
+			n += len(sg.Lit)
+		}
+	}
+	return n
+}
+
 // crossing: a has a literal where b has a variable AND b has a literal where a has a variable.
 func crossing(a, b rt.Tmpl) bool {
 	if len(a) != len(b) {
@@ -117,6 +138,9 @@ func c17(ctx *core.Ctx) {
 		if m := ti % 40; m == 14 || m == 15 {
 			// table shapes beyond what the small tables reach (long templates, 33-40 services, long media lists, many conditions, 130 routes)
 			ctx.SetAdd("scaled_table_shapes", rt.Scale(&go17, ti/40))
+		} else if m == 16 || m == 17 {
+			// services with up to 130 routes on a handful of colliding paths get a share of their own (many candidates per request)
+			ctx.SetAdd("scaled_table_shapes", rt.Scale(&go17, 4))
 		}
 		t := rt.GenTable(r, go17)
 		ctx.Case(ti, "router="+router+" table="+core.JSON(t))
@@ -316,6 +340,9 @@ func c18(ctx *core.Ctx) {
 		if m := ti % 40; m == 14 || m == 15 {
 			// table shapes beyond what the small tables reach (long templates, 33-40 services, long media lists, many conditions, 130 routes)
 			ctx.SetAdd("scaled_table_shapes", rt.Scale(&o, ti/40))
+		} else if m == 16 || m == 17 {
+			// services with up to 130 routes on a handful of colliding paths get a share of their own (many candidates per request)
+			ctx.SetAdd("scaled_table_shapes", rt.Scale(&o, 4))
 		}
 		t := rt.GenTable(r, o)
 		ctx.Case(ti, "table="+core.JSON(t))
@@ -375,9 +402,21 @@ func c18(ctx *core.Ctx) {
 					case routeDominates(fa, fb) || routeDominates(fb, fa) || len(fa) != len(fb):
 						sig = "c18:rank-dominated"
 					case crossing(fa, fb):
-						// each template has a literal where the other has a variable: KNOWN_FINDINGS.txt (ranking policies differ)
+						// each template has a literal where the other has a variable: KNOWN_FINDINGS.txt (ranking policies differ:
+						// CurlyRouter prefers more static segments, RouterJSR311 more literal characters). The finding covers
+						// exactly the disagreements in which each router follows its own key; a router that picks AGAINST its own
+						// key among these two eligible routes is something else
 						sig = "c18:rank-incomparable"
-						ctx.Count("known_rank_incomparable", 1)
+						if sa == sb {
+							if litSegs(fa) < litSegs(fb) {
+								sig = "c18:rank-incomparable:curly-against-static-segments"
+							} else if litChars(fb) < litChars(fa) {
+								sig = "c18:rank-incomparable:jsr311-against-literal-characters"
+							}
+						}
+						if sig == "c18:rank-incomparable" {
+							ctx.Count("known_rank_incomparable", 1)
+						}
 					default:
 						sig = "c18:rank-same-shape"
 					}
